@@ -88,6 +88,7 @@ def _f12(pid, spec, v):
 
 class C03(Property):
     id = "C03"
+    anchors = ('finam.schedule:Composition.run', 'finam.schedule:Composition._check_status', 'finam.schedule:Composition._finalize_components')
     technique = "trace monitors on recorded life-cycle callbacks (regular expression), finalisation counters, per-update end-time snapshot, logical step cap (bounded progress)"
     rule = (
         "C01's composition generator (DAGs, delay-resolved cycles, pull-based components, adapter chains, orders) with end times on / just "
